@@ -386,7 +386,7 @@ impl Prop for C44 {
          callers x 2..5 calls on a multi-thread runtime against endpoints answering by a pure function of (seed, call, \
          endpoint); the stamped trace must be a run of the model. S10 size-threshold stress (tags big/…): controlled histories with \
          6, 7, 8, 9, 15, 16, 17, 31, 32, 33, 62, 63 endpoints (63 = the most the probe walks through) and up to 9 / 17 / 33 / 65 overlapping calls \
-         with network-failure-biased answers, and storms with 6..8 endpoints x 7..8 callers x 6..8 calls (the harness's maxima). Non-trivial = every op of a history with >= 2 endpoints \
+         with network-failure-biased answers, and 3 (thorough 30) storms with 6..8 endpoints x 7..8 callers x 6..8 calls (the harness's maxima; the driver's trace check is the bottleneck there). Non-trivial = every op of a history with >= 2 endpoints \
          and every storm; distinct = distinct (op+trace, result)."
     }
     fn gen_ops(&mut self, rng: &mut Rng, tier: Tier, out: &mut Emitter) {
@@ -511,7 +511,9 @@ impl Prop for C44 {
             out.op("reset", "storm", false);
         }
         // S10: storms at the largest sizes the harness supports (8 endpoints, 8 callers, 8 calls each) and just below
-        for _ in 0..(if thorough { 400 } else { 24 }) {
+        // (the driver's trace check — the set of model states a stamped trace can be in — costs ~1.5 s per such storm on
+        // average (up to 14 s) against 0.02 s for the regular ones: the Lean driver is the bottleneck, hence only 3 per quick and 30 per thorough run)
+        for _ in 0..(if thorough { 30 } else { 3 }) {
             out.op(
                 format!("storm n={} callers={} calls={} seed={}", rng.usize(6, 8), rng.usize(7, 8), rng.usize(6, 8), rng.next_u64() >> 16),
                 "big/storm",
